@@ -393,7 +393,7 @@ fn main() -> std::process::ExitCode {
         "C16",
         "histories of 1-40 set_memory/set32/get/get32/get8/permissions over a 256-byte window (4 bases, both endiannesses) checked after every step and by a final sweep against a last-writer-wins byte map; non-trivial = at least two overlapping writes and at least one read across a section seam; distinct = (endianness, base, set of overlap shapes, capped overlap and seam-read counts)",
         Box::new(|_t: Tier| from_tape(400, decode)),
-        |t| t.pick(300_000, 20_000_000),
+        |t| t.pick(1_000_000, 30_000_000),
         check,
     );
     spec.render = render;
